@@ -623,7 +623,16 @@ def rule_formatsafe(ctx):
     yield from common.rule_formatsafe(ctx, "C20.FORMATSAFE", ("io.py", "util.py", "key.py", "tempo.py"))
 
 
+
+
+def _helperdefaults():
+    from . import common as _c
+
+    return _c.rule_helperdefaults("C20.HELPERDEFAULTS")
+
+
 RULES = [
+    ("C20.HELPERDEFAULTS", 3, _helperdefaults()),
     ("C20.EXTNAMES", 20, rule_extnames),
     ("C20.FORMATSAFE", 5, rule_formatsafe),
     ("C20.PATTERNFLUSH", 1, rule_patternflush),
